@@ -19,7 +19,7 @@ EXPLANATION = (
     "and returns Ok only on add_edges' Ok edge.  R-C01-3 each error kind is control-dependent on its own policy atoms with the right "
     "polarity, all six spec fields are read by add_edge, the silent-drop Ok writes nothing.  R-C01-4 add_node's per-path written sets "
     "are exactly REPLACE (index-assign + nodes_map_rev insert, no push, no nodes_map write) when the name exists, else APPEND (all "
-    "seven per-node stores, vectors by push).  R-C01-5 the source endpoint is created before the target.  NOT decided: that each "
+    "seven per-node stores, vectors by push).  R-C01-5 the source endpoint is created before the target.  R-C01-7 the keyed accesses to `edges`/`edges_map` in add_edge and its callees (duplicate lookup, insertion) obey the stores' canonical-key discipline (same rule as R-C02-3).  NOT decided: that each "
     "branch computes the right outcome (e.g. KeepFirst/KeepLast swapped), weights/NaN handling."
 )
 TRUSTED = ["rustc MIR construction", "std HashMap/Vec semantics for insert/push/entry", "CFG paths over-approximate executions (X1 is the one named infeasible-path exemption)"]
@@ -97,6 +97,11 @@ def run(ctx):
     rule4(ctx, prog, flows, effects, add_node)
     rule5(ctx, prog, flows, add_edge)
     rule6(ctx, prog, flows, effects, add_edge)
+    # R-C01-7: the duplicate test and the stores agree on the pair's key (either orientation when undirected)
+    from props.c02 import key_discipline
+
+    only = prog.reachable_bodies([add_edge.path])
+    key_discipline(ctx, prog, flows, "R-C01-7", only, 2, 5, why=" -- restricted to add_edge and its callees: the duplicate test finds the stored pair in either orientation only if lookup and insertion canonicalise alike")
 
 
 # ---------------------------------------------------------------------------------------- R-C01-1
@@ -356,11 +361,19 @@ def rule3(ctx, prog, flows, effects, add_edge):
         ctx.violation("R-C01-3", "extra-kind|" + v, "add_edge builds an unexpected error kind %s" % v, loc_str(sites[v][1].span))
     # all six spec fields are read
     read = set()
+    places = []
     for st in b.stmts():
-        for pl in ([st.rv.place] if st.rv is not None and st.rv.place is not None else []) + [o.place for o in (st.rv.ops if st.rv is not None else []) if o.place is not None]:
-            fs = pl.fields()
-            if "specs" in fs and fs.index("specs") + 1 < len(fs):
-                read.add(fs[fs.index("specs") + 1])
+        places += ([st.rv.place] if st.rv is not None and st.rv.place is not None else []) + [o.place for o in (st.rv.ops if st.rv is not None else []) if o.place is not None]
+    for blk in b.normal_blocks():
+        t = blk.term
+        if t.k == "switch" and t.discr.place is not None:
+            places.append(t.discr.place)
+        elif t.k == "call":
+            places += [o.place for o in t.args if o.place is not None]
+    for pl in places:
+        fs = pl.fields()
+        if "specs" in fs and fs.index("specs") + 1 < len(fs):
+            read.add(fs[fs.index("specs") + 1])
     want = {"directed", "edge_dedupe_strategy", "missing_node_strategy", "multi_edges", "self_loops", "self_loops_false_strategy"}
     ctx.require(want <= read, "R-C01-3", "specs-read", "add_edge consults all six GraphSpecs fields", "add_edge never reads specs.%s" % sorted(want - read), loc_str(b.span))
     # the silent drop: an Ok return controlled by the Drop variant, with nothing written before
